@@ -730,6 +730,10 @@ func unescapeBackTickSpecialStr(l *syntax.Lexer, srcLiteral []rune) []rune {
 			}
 		}
 
+		// never step over the end of text: an unfinished escape sequence is kept as it is
+		if l.GetCursor()+1 >= len(l.GetSource()) {
+			goto UNDONE_end
+		}
 		cch := l.Next()
 		literalBuffer = append(literalBuffer, cch)
 		// to match U+xxxx, the char range is [0-9A-Fa-f]
